@@ -478,7 +478,8 @@ class domain(config_domain):
     def pkg_licenses(self, data, debug=False):
         if debug:
             return tuple(data)
-        return tuple((x[0], stable_unique(x[1])) for x in data)
+        # tokens are applied in order (-x, -@group, -*), so repeats are kept
+        return tuple((x[0], x[1]) for x in data)
 
     @load_property("package.use", parse_func=package_use_splitter)
     def pkg_use(self, data, debug=False):
